@@ -69,10 +69,14 @@ def breakers(text, rng, ast=None):
     j = text.find("CC")
     if j >= 0:
         out.append(("descriptor-between-atoms", text[:j + 1] + "[$]" + text[j + 1:], "parse"))
+        # the same with descriptors that carry a weight (integer, decimal, leading / trailing dot) or an id: the rule is about position, not spelling
+        for dtxt in ("[$|0.5|]", "[<|1.5|]", "[>|2|]", "[$1|.25|]", "[$|3.|]"):
+            out.append(("descriptor-between-atoms[weighted]", text[:j + 1] + dtxt + text[j + 1:], "parse"))
     # descriptor between two atoms, directly after a closed branch
     mb = re.search(r"\)(?=[A-Zc])", text)
     if mb:
         out.append(("descriptor-between-atoms[after-branch]", text[:mb.end()] + "[$]" + text[mb.end():], "parse"))
+        out.append(("descriptor-between-atoms[after-branch,weighted]", text[:mb.end()] + "[$|0.5|]" + text[mb.end():], "parse"))
     # unknown descriptor symbol
     k = text.find("[<]")
     if k < 0:
